@@ -412,6 +412,83 @@ func c11panicCheck(w *Worker, pc c11panicCase, idx int64) {
 	}
 }
 
+// ---- a panic that propagates through a nested printer and is contained further up ---------------
+
+type c11double struct {
+	head  string
+	first interface{}
+	bad   interface{}
+	form  int
+}
+
+func (d c11double) SafeFormat(p redact.SafePrinter, _ rune) {
+	p.SafeString("before ")
+	p.UnsafeString(d.head)
+	switch d.form {
+	case 0:
+		p.Print(d.first, d.bad)
+	case 1:
+		p.Printf("%v|%v", d.first, d.bad)
+	default:
+		p.Printf("%s", d.first)
+		p.Print(d.bad)
+	}
+	p.SafeString(" unreachable")
+}
+
+// c11doublePanics: the payload of the inner panic panics the first time it is
+// printed, so the nested printer lets the panic through (as fmt does) and the
+// enclosing printer contains it. Everything written before the failing
+// element, by either printer, must still be there.
+func c11doublePanics(c *Ctx) {
+	heads := []string{"", "head", "h" + endM, "line\n", "x" + startM}
+	firsts := []interface{}{"abc", 42, redact.Safe("s"), "", tStringer{"st"}, []interface{}{1, "z"}}
+	var jobs [][3]int
+	for h := range heads {
+		for f := range firsts {
+			for form := 0; form < 3; form++ {
+				jobs = append(jobs, [3]int{h, f, form})
+			}
+		}
+	}
+	c.ParallelFor(int64(len(jobs)), func(w *Worker, i int64) {
+		j := jobs[i]
+		cs := func() interface{} {
+			return map[string]interface{}{"head_q": q(heads[j[0]]), "first": sprintType(firsts[j[1]]), "form": j[2]}
+		}
+		run := func(withBad bool) (out string, ok bool) {
+			k := 1
+			var bad interface{} = tStringer{""}
+			if withBad {
+				bad = tPanicStringer{panicSpec{mode: 5, msg: "boom", k: &k}}
+			}
+			ok = guard(w, "double-panic-escaped", "a call in which a panic passes through a nested printer and is contained by the enclosing one", cs, func() {
+				out = string(redact.Sprint(c11double{heads[j[0]], firsts[j[1]], bad, j[2]}))
+			})
+			return
+		}
+		full, ok1 := run(true)
+		ref, ok2 := run(false)
+		w.Eval(2)
+		if !ok1 || !ok2 || !checkOut(w, full, "output after a propagated and then contained panic", cs) {
+			return
+		}
+		sf, sr := stripTokens(full), stripTokens(ref)
+		// ref = "before <head><first>[sep] unreachable"; everything up to the failing element must be kept
+		keep := strings.TrimSuffix(sr, " unreachable")
+		if j[2] == 0 {
+			keep = strings.TrimSuffix(keep, " ") // Print puts a space before a non-string operand that follows a non-string one
+		}
+		at := strings.Index(sf, "%!v(PANIC=")
+		if at < 0 || !strings.HasPrefix(sf, keep) && !strings.HasPrefix(keep, sf[:at]) || len(sf[:at]) < len(strings.TrimRight(keep, " ")) {
+			w.Violate("C11 output-lost-nested", "text written before the failing element is lost: got "+q(full)+", the same call without the panic prints "+q(ref), cs())
+			return
+		}
+		w.Count("propagated_then_contained", 1)
+		w.Nontrivial(hashStrs("double", itoa(j[0]), itoa(j[1]), itoa(j[2])))
+	})
+}
+
 // ---- nil operands everywhere ------------------------------------------------------------------
 
 func c11nils(c *Ctx) {
@@ -456,6 +533,7 @@ func runC11(c *Ctx) {
 	c11formats(c)
 	c11nils(c)
 	c11panics(c)
+	c11doublePanics(c)
 	c.res.Bound = "rune edges: all 2048 surrogates + 18 boundary values; all 256 bytes; 5 buffer states x 4 implementations; 44 JoinTo operand types x 4 delimiters; every prefix of 40 hostile formats x 6 operand lists x 6 routes; 21 nil-ish operands x 58 verbs x 4 flag forms x 6 routes"
 	c.res.Assumptions = []string{"outside the claim, per the statement: Grow with a negative count, memory exhaustion; nil destinations/callbacks are programmer errors, not values to print", "a panic raised while printing a panic payload propagates, as in fmt (checked against fmt in C04)"}
 }
